@@ -54,7 +54,7 @@ def h_step_direct(ctx, ploidy, hapx, naming, k, classes):
     try:
         got = call.absolute_threshold(cna, ploidy, tuple(ts), hapx)
     except Exception as exc:
-        ctx.claim(False, f"absolute_threshold raised {type(exc).__name__}")
+        claim_raised(ctx, "absolute_threshold", exc)
         return
     ctx.claim(len(got) == len(classes), "one value per row")
     ctx.observe("cn", list(got))
@@ -79,7 +79,7 @@ def h_step_call(ctx, ploidy, hapx, naming, thresholds, nan_row=None, classes=Non
     try:
         out = call.do_call(cna, None, "threshold", ploidy, None, hapx, False, None, None, **kw)
     except Exception as exc:
-        ctx.claim(False, f"do_call raised {type(exc).__name__}")
+        claim_raised(ctx, "do_call", exc)
         return
     ts = DEFAULT_T if thresholds is None else thresholds
     ctx.claim(len(out) == 3, "the number of rows never changes")
@@ -111,7 +111,7 @@ def h_monotone(ctx, ploidy, hapx, naming, cls):
     try:
         out = call.do_call(cna, None, "threshold", ploidy, None, hapx, False)
     except Exception as exc:
-        ctx.claim(False, f"do_call raised {type(exc).__name__}")
+        claim_raised(ctx, "do_call", exc)
         return
     cns = col(out, "cn")
     ctx.observe("cn", cns)
@@ -149,7 +149,7 @@ def h_allelic(ctx, ploidy, hapx, naming, purity, nan_baf, method):
     try:
         out = call.do_call(cna, _Variants(bafs), method, ploidy, purity, hapx, True)
     except Exception as exc:
-        ctx.claim(False, f"do_call raised {type(exc).__name__}")
+        claim_raised(ctx, "do_call", exc)
         return
     cn, cn1, cn2 = col(out, "cn"), col(out, "cn1"), col(out, "cn2")
     ctx.observe("cn", cn)
